@@ -428,6 +428,81 @@ func TestScenarioCloseMidLMTPData(t *testing.T) {
 	e.waitK(be.readDone, "the LMTP DATA reader did not fail after Close")
 }
 
+// an LMTP backend that gives every recipient its status BEFORE it reads the message: the replies may go
+// out early, but the command loop must not go on before LMTPData has returned (the delivery goroutine is
+// joined) - otherwise the message text is read by two goroutines and parsed as commands
+type scEarlySession struct {
+	*scSession
+	rcpts []string
+}
+
+func (s *scEarlySession) Rcpt(to string, _ *smtp.RcptOptions) error {
+	s.rcpts = append(s.rcpts, to)
+	return nil
+}
+
+func (s *scEarlySession) LMTPData(r io.Reader, st smtp.StatusCollector) error {
+	for _, to := range s.rcpts {
+		st.SetStatus(to, &smtp.SMTPError{Code: 552, EnhancedCode: smtp.EnhancedCode{5, 2, 2}, Message: "over quota"})
+	}
+	s.rcpts = nil
+	return s.scSession.Data(r)
+}
+
+type scEarlyBackend struct{ *scBackend }
+
+func (b scEarlyBackend) NewSession(*smtp.Conn) (smtp.Session, error) {
+	return &scEarlySession{scSession: &scSession{b: b.scBackend}}, nil
+}
+
+func TestScenarioLMTPEarlyStatuses(t *testing.T) {
+	be := newScBackend()
+	hold := make(chan struct{})
+	be.holdRead[0] = hold
+	e := scStart(t, scEarlyBackend{be}, true)
+	e.send("LHLO x\r\n")
+	e.expect("250")
+	e.send("MAIL FROM:<a@b>\r\n")
+	e.expect("250")
+	e.send("RCPT TO:<c@d>\r\n")
+	e.expect("250")
+	e.send("RCPT TO:<e@f>\r\n")
+	e.expect("250")
+	e.send("DATA\r\n")
+	e.expect("354")
+	body := "NOOP\r\nline two of the message\r\n"
+	wr := e.sendAsync(body + ".\r\nNOOP\r\n")
+	e.waitK(be.entered, "LMTPData was not called")
+	e.expect("552")
+	e.expect("552")
+	// the backend has not read the message yet: nothing more may be answered
+	e.c.SetReadDeadline(time.Now().Add(400 * time.Millisecond))
+	if line, err := e.r.ReadString('\n'); err == nil {
+		t.Errorf("the command loop went on while LMTPData was still running: got %q", line)
+	}
+	close(hold)
+	k := e.waitK(be.readDone, "LMTPData did not finish reading")
+	be.mu.Lock()
+	got, rerr := be.got[k], be.readErr[k]
+	be.mu.Unlock()
+	if got != body || rerr != nil {
+		t.Errorf("LMTPData read %q (%v), want the whole message %q", got, rerr, body)
+	}
+	select {
+	case err := <-wr:
+		if err != nil {
+			t.Errorf("client write: %v", err)
+		}
+	case <-time.After(scWatchdog):
+		e.hang("the client's write never completed")
+	}
+	e.expect("250") // the NOOP behind the end marker, and only that
+	e.send("QUIT\r\n")
+	e.expect("221")
+	go io.Copy(io.Discard, e.r)
+	e.finish(true)
+}
+
 // Shutdown waits for the connection; the context ends the wait
 func TestScenarioShutdownMidBdat(t *testing.T) {
 	be := newScBackend()
